@@ -1,9 +1,12 @@
 // c02 — correspondence harness + property search for C02 (signature hashes).
 // Real code : Tx.SignatureHash / WitnessSigHash / TaprootSigHash, SigChecker.CheckSchnorrSignature,
-//             script.VerifyTxScript (lib/btc, lib/script of the repository the harness was built against).
+//
+//	script.VerifyTxScript (lib/btc, lib/script of the repository the harness was built against).
+//
 // Model     : lean oracle_c02 (Model.SigHash with the cache threaded, Spec.SigHash).
 // Reference : ref.go (the three algorithms from the specifications) and ec.go (BIP340 / ECDSA signer);
-//             the property predicate on the real code is evaluated against these, never against gocoin.
+//
+//	the property predicate on the real code is evaluated against these, never against gocoin.
 package main
 
 import (
@@ -292,7 +295,7 @@ func schnorrAccepts(c *Case, k *Call) (accepted bool, digestUsed string) {
 
 // runCase: all calls of the case, in order, on ONE real object and ONE model object; every result is
 // compared with (1) the reference digest, (2) the same call on a fresh real object, (3) the model.
-func runCase(c *Case) {
+func runCase(c *Case) []string {
 	t, spent := c.ref()
 	o.MustAsk(c.oracleLine())
 	r.Hit("shape:ins=" + bucket(len(c.Ins)) + ",outs=" + bucket(len(c.Outs)))
@@ -311,7 +314,7 @@ func runCase(c *Case) {
 			} else {
 				r.TieFail("model-call-blocks", what+" - after a recovered panic (Spent_outputs shorter than the inputs); the model answers every request", one)
 			}
-			return
+			return nil
 		}
 		fresh[n] = realCall(c.real(), k)
 		defined, want, refPre := refCall(t, spent, k)
@@ -369,7 +372,7 @@ func runCase(c *Case) {
 	if c.Par > 0 {
 		// the concurrent callers run in a child process: a run-time fatal error there (deadlock on hashLock, concurrent
 		// map access, a crash no recover() can catch) is an observation about THIS transaction and call list
-		bad, crash := parallelInChild(c, fresh)
+		bad, crash := askChild(&parReq{Group: []parMember{{c, fresh}}, Rounds: 1})
 		r.Eval(c.Label+":parallel", "")
 		switch {
 		case crash != "":
@@ -380,40 +383,17 @@ func runCase(c *Case) {
 			r.Hit(fmt.Sprintf("parallel:callers=%d:ok", c.Par))
 		}
 	}
-}
-
-// runParallel: c.Par goroutines issue all calls of the case on ONE object, each in its own order; the first
-// result that differs from the result on a fresh object is reported. (Runs inside the child process.)
-func runParallel(c *Case, fresh []string) string {
-	obj := c.real()
-	var wg sync.WaitGroup
-	bad := make([]string, c.Par)
-	for g := 0; g < c.Par; g++ {
-		wg.Add(1)
-		go func(g int) {
-			defer wg.Done()
-			for j := range c.Calls {
-				n := (j*(2*g+1) + g) % len(c.Calls) // a different order per goroutine
-				if got := realCall(obj, &c.Calls[n]); got != fresh[n] && bad[g] == "" && len(c.Spent) >= len(c.Ins) {
-					bad[g] = fmt.Sprintf("call %d (%s, input %d, hash type 0x%x) returns %s under %d concurrent callers, %s on a fresh object", n, c.Calls[n].Kind, c.Calls[n].Idx, c.Calls[n].Ht, got, c.Par, fresh[n])
-				}
-			}
-		}(g)
-	}
-	wg.Wait()
-	for _, b := range bad {
-		if b != "" {
-			return b
-		}
-	}
-	return ""
+	return fresh
 }
 
 // ---------------------------------------------------------------- the child process for concurrent callers
 
+// parReq: Group = digest requests, every member on its own transaction object with Case.Par callers, all at the same
+// time; Multis = whole transactions whose spent inputs are verified by one goroutine each, all at the same time.
 type parReq struct {
-	Case  *Case    `json:"case"`
-	Fresh []string `json:"fresh"`
+	Group  []parMember `json:"group,omitempty"`
+	Multis []*Built    `json:"multis,omitempty"`
+	Rounds int         `json:"rounds"`
 }
 type parRep struct {
 	Bad string `json:"bad"`
@@ -428,11 +408,24 @@ func childMain() {
 		line, err := in.ReadBytes('\n')
 		if len(bytes.TrimSpace(line)) > 0 {
 			var q parReq
-			if json.Unmarshal(line, &q) != nil || q.Case == nil || len(q.Fresh) != len(q.Case.Calls) {
+			bad := json.Unmarshal(line, &q) != nil || (len(q.Group) == 0) == (len(q.Multis) == 0)
+			for _, m := range q.Group {
+				bad = bad || m.Case == nil || len(m.Fresh) != len(m.Case.Calls)
+			}
+			for _, m := range q.Multis {
+				bad = bad || m == nil || len(m.Idx) != len(m.Want) || len(m.Idx) != len(m.Sig) || len(m.Idx) != len(m.Wit) || len(m.Idx) != len(m.Kind)
+			}
+			if bad {
 				fmt.Fprintln(os.Stderr, "c02 -child: bad request")
 				os.Exit(4)
 			}
-			b, _ := json.Marshal(parRep{runParallel(q.Case, q.Fresh)})
+			var res string
+			if len(q.Group) > 0 {
+				res = runDigestsParallel(q.Group, q.Rounds)
+			} else {
+				res = runSpendsParallel(q.Multis, q.Rounds)
+			}
+			b, _ := json.Marshal(parRep{res})
 			out.Write(b)
 			out.WriteByte('\n')
 			out.Flush()
@@ -501,13 +494,13 @@ func parStop() {
 	}
 }
 
-// parallelInChild: bad = a wrong digest under concurrency; crash = the child died / hung on this case.
-func parallelInChild(c *Case, fresh []string) (bad, crash string) {
+// askChild: bad = a wrong digest / verdict under concurrency; crash = the child died / hung on this request.
+func askChild(q *parReq) (bad, crash string) {
 	if pc == nil {
 		pc = parStart()
 	}
 	p := pc
-	b, _ := json.Marshal(parReq{c, fresh})
+	b, _ := json.Marshal(q)
 	type res struct {
 		line []byte
 		err  error
@@ -627,12 +620,23 @@ func replay(path string) {
 		os.Exit(3)
 	}
 	var probe struct {
-		E2E    *E2E    `json:"e2e"`
-		DScr   *string `json:"delsig_script"`
-		DSig   *string `json:"delsig_sig"`
+		E2E   *E2E     `json:"e2e"`
+		DScr  *string  `json:"delsig_script"`
+		DSig  *string  `json:"delsig_sig"`
+		Multi []*Multi `json:"multi"`
+		Group []*Case  `json:"group"`
 	}
 	if json.Unmarshal(doc.Replay, &probe) == nil && probe.E2E != nil {
 		runE2E(probe.E2E)
+		return
+	}
+	// a failure under concurrency depends on the schedule: many more rounds than in the run that found it
+	if len(probe.Multi) > 0 {
+		runMultis(probe.Multi, 400)
+		return
+	}
+	if len(probe.Group) > 0 {
+		runGroup(probe.Group, 60)
 		return
 	}
 	if probe.DScr != nil && probe.DSig != nil {
@@ -665,7 +669,8 @@ func main() {
 	r.Assume = []string{
 		"SHA-256 is modelled, not verified (theorems hold for every hash function; the oracle's SHA-256 is compared with crypto/sha256 through every digest)",
 		"Spent_outputs has one non-nil entry per input (every caller in /repo allocates it that way)",
-		"each digest request is one atomic step (the functions hold hashLock for their whole body)",
+		"each digest request is one atomic step (the functions hold hashLock for their whole body) and the tagged-hash objects handed out by btc.Hasher are private to the call: the model has no goroutines and treats tagged hashes as pure functions; both are outside the theorems and are covered only by the concurrent streams (child process)",
+		"which script code / code-separator position the interpreter hands to the digest functions at each executed CHECKSIG / CHECKMULTISIG / CHECKSIGADD is C01's model; here it is tested end to end (scripts with several checks and code separators)",
 		"legacy: script codes that do not decode into opcodes are outside the specification (every caller fails on them); model and code are still compared there",
 	}
 	if r.Replay != "" {
@@ -674,6 +679,12 @@ func main() {
 		r.Finish("replay of one recorded case", "replay")
 	}
 	g := r.Rng
+	secs := map[string]float64{}
+	last := time.Now()
+	lap := func(name string) {
+		secs[name] = float64(int(time.Since(last).Seconds()*10)) / 10
+		last = time.Now()
+	}
 
 	// 1. corpus: the F1 witnesses and one spend per kind through script.VerifyTxScript,
 	//    Core's sighash.json (500 legacy vectors), hand-made boundary cases
@@ -684,11 +695,13 @@ func main() {
 		runCase(&c)
 		specCheck(&c)
 	}
+	lap("1-corpus")
 	// 2. random end-to-end spends
 	for i := 0; i < r.N(200, 4000); i++ {
 		e := genE2E(g)
 		runE2E(e)
 	}
+	lap("2-e2e-single-input")
 	// 3. random transactions, hash-type sweeps on one object (cache threaded on both sides)
 	ntx := r.N(120, 900)
 	for i := 0; i < ntx; i++ {
@@ -705,21 +718,34 @@ func main() {
 			r.Sample(s)
 		}
 	}
+	lap("3-sweeps")
 	// 4. call-order permutations and parallel callers on one object
 	for i := 0; i < r.N(100, 2000); i++ {
 		c := genCacheCase(g)
 		runCase(c)
 	}
+	lap("4-cache-one-object")
+	// 4b. digest requests on DIFFERENT transaction objects at the same time
+	for i := 0; i < r.N(40, 800); i++ {
+		runGroup(genGroup(g), 2)
+	}
+	lap("4b-parallel-different-transactions")
+	// 4c. whole transactions with several signed inputs / scripts with several signature checks, sequentially on one
+	//     object and with one goroutine per input
+	multiStreams(g)
+	lap("4c-multi-input-multi-check")
 	// 5. delSig (real code through the verif hook) against FindAndDelete and the model
 	delSigCorpus()
 	for i := 0; i < r.N(300, 20000); i++ {
 		delSigCase(g, i)
 	}
+	lap("5-delsig")
 	parStop()
+	r.Extra["seconds_by_stream"] = secs
 	r.Extra["oracle_requests"] = o.N
 	r.Extra["parallel_child_processes_started"] = parChildrenStarted
-	r.Finish("corpus (sighash.json, boundary transactions, F1 witness), then random transactions (0..n inputs/outputs, CompactSize boundaries 252/253, random version/locktime/sequence) with a hash-type sweep per transaction (all 256 byte values in thorough, edge set + random in quick, 4-byte types for legacy/BIP143) for the three algorithms on ONE object, call-order permutations and parallel callers; a case is distinct by (algorithm, input, hash type, hash of transaction+script) and non-trivial when the input index is in range",
-		"Every digest of the real code is compared with an independent reference (ref.go) and with the Lean model; the model's preimage with the reference preimage; results on a shared object with results on a fresh object; undefined taproot cases are attacked with a real BIP340 signature over the digest handed out; end-to-end spends (P2PKH/bare with code separators and embedded signatures - including pre-BIP66 spends whose script code embeds its own lax-DER padded signature as a push of 75/76/77/…/255/256 bytes -, P2WPKH/P2WSH, taproot key and script path with annex) are signed by the independent signer over the reference digest and must verify, and must not verify over any other digest; the real delSig (verif hook) is compared with the reference FindAndDelete and the model at every push-opcode boundary; concurrent callers run in a child process so that a crash, a hang or a wrong digest under concurrency is a reported failure of the transaction and call list at hand.")
+	r.Finish("corpus (sighash.json, boundary transactions, F1 witness), then random transactions (0..n inputs/outputs, CompactSize boundaries 252/253, random version/locktime/sequence) with a hash-type sweep per transaction (all 256 byte values in thorough, edge set + random in quick, 4-byte types for legacy/BIP143) for the three algorithms on ONE object, call-order permutations and parallel callers on one object and on several transaction objects at the same time; whole transactions with 1..8 really spent inputs out of 1..2500 (bare/P2SH/P2WSH/P2SH-P2WSH scripts and tapscripts with 1..4 CHECKSIG / CHECKMULTISIG / CHECKSIGADD checks, executed and unexecuted code separators between them, P2PKH/P2WPKH/key path) verified sequentially on one object and by one goroutine per input; a case is distinct by (algorithm, input, hash type, hash of transaction+script) and non-trivial when the input index is in range",
+		"Every digest of the real code is compared with an independent reference (ref.go) and with the Lean model; the model's preimage with the reference preimage; results on a shared object with results on a fresh object; undefined taproot cases are attacked with a real BIP340 signature over the digest handed out; end-to-end spends (P2PKH/bare with code separators and embedded signatures - including pre-BIP66 spends whose script code embeds its own lax-DER padded signature as a push of 75/76/77/…/255/256 bytes -, P2WPKH/P2WSH, taproot key and script path with annex) are signed by the independent signer over the reference digest and must verify, and must not verify over any other digest; the real delSig (verif hook) is compared with the reference FindAndDelete and the model at every push-opcode boundary; scripts with several signature checks are signed per check with the script code / separator position of THAT check (and, on purpose, with another check's) and must verify exactly when every signature is over its own reference digest; concurrent callers (several on one transaction object; several transaction objects at once; one goroutine per spent input through script.VerifyTxScript, fresh object per round, three start disciplines) run in a child process so that a crash, a hang, a wrong digest or a wrong verdict under concurrency is a reported failure with the transactions and call lists at hand.")
 }
 
 func mustBigHex(s string) []byte { return unhx(s) }
